@@ -66,7 +66,7 @@ func viewOf(req *restful.Request, w http.ResponseWriter) string {
 		pair = p
 	}
 	var attrs []string
-	for _, k := range []string{"c0", "c1", "c2", "s0", "s1", "r0", "r1", "x0", "y0"} {
+	for _, k := range []string{"c0", "c1", "c2", "s0", "s1", "s2", "r0", "r1", "r2", "x0", "y0"} {
 		if v := req.Attribute("attr-" + k); v != nil {
 			attrs = append(attrs, fmt.Sprint(v))
 		}
@@ -199,7 +199,7 @@ func c06Req(kind, rid string) h.Req {
 }
 
 func attrRank(id string) int {
-	for i, k := range []string{"c0", "c1", "c2", "s0", "s1", "r0", "r1", "x0", "y0"} {
+	for i, k := range []string{"c0", "c1", "c2", "s0", "s1", "s2", "r0", "r1", "r2", "x0", "y0"} {
 		if k == id {
 			return i
 		}
@@ -371,6 +371,12 @@ func checkC06(run *h.Run) {
 	rs.Quiet(false)
 	// ---- E1: every configuration x every request kind ----
 	cfgs := append(c06Cfgs(2, 2, 2, false), c06Cfgs(1, 1, 1, true)...)
+	// three filters at one level (thresholds in the number of filters)
+	for _, c := range c06Cfgs(3, 0, 0, false) {
+		if len(c.C) == 3 {
+			cfgs = append(cfgs, c, c06Cfg{S: c.C}, c06Cfg{R: c.C})
+		}
+	}
 	if run.Tier == "thorough" {
 		cfgs = append(cfgs, c06Cfgs(3, 1, 1, false)...)
 		cfgs = append(cfgs, c06Cfgs(2, 2, 2, true)...)
